@@ -259,7 +259,7 @@ theorem Keeps.allocBoth_declared (P : Heap → Prop) (r : AttrRec) (mk : Nat →
     Keeps P (allocBoth r mk) TrQ := by
   intro h ih _
   refine ⟨?_, fun _ _ _ => trivial⟩
-  have e : viewOf { cls := h.cls ++ [mk h.attrs.length], attrs := h.attrs ++ [r] }
+  have e : viewOf { cls := h.cls ++ [mk h.attrs.length], attrs := h.attrs ++ [r], prots := h.prots }
       = { cls := upd (viewOf h).cls h.cls.length (some (true, h.attrs.length, none)),
           var := upd (viewOf h).var h.attrs.length (some (some none)) } := by
     have h1 := viewOf_allocAttrs h r
